@@ -10,15 +10,13 @@ package main
 import (
 	"bytes"
 	"fmt"
-	"io"
 	"os"
 	"path/filepath"
-	"runtime/pprof"
+	"runtime/debug"
 	"sort"
 	"strings"
 	"sync"
 	"time"
-	"unicode/utf8"
 
 	"github.com/c2h5oh/datasize"
 	"github.com/relex/fluentlib/protocol/forwardprotocol"
@@ -456,12 +454,6 @@ func inList(s string, list []string) bool {
 
 // runPair executes one case; returns the first violation (key, msg).
 func runPair(pc pairCase) (string, string) {
-	var marks []string
-	t0 := time.Now()
-	mark := func(s string) { marks = append(marks, fmt.Sprintf("%s=%.1fms", s, float64(time.Since(t0).Microseconds())/1000)) }
-	if os.Getenv("VERIF_TIMING") != "" {
-		defer func() { fmt.Fprintf(os.Stderr, "case took %v %v\n", time.Since(t0), marks) }()
-	}
 	root := hutil.ScratchRoot("seqkeys")
 	defer os.RemoveAll(root)
 	logCap.Reset()
@@ -488,9 +480,7 @@ func runPair(pc pairCase) (string, string) {
 	if pc.conns == 2 {
 		s2.Close()
 	}
-	mark("g1sent")
 	orc.Shutdown()
-	mark("g1down")
 	if l := logCap.FirstBugLine(); l != "" {
 		return "bug-log:gen1", l
 	}
@@ -584,9 +574,7 @@ func runPair(pc pairCase) (string, string) {
 	cap2.startup = false
 	nStartup := len(cap2.consumers)
 	cap2.mu.Unlock()
-	mark("g2start")
 	labelTuples := keyLabelTuples(mf2, w2.keys)
-	mark("g2labels")
 	t1 := orc2.NewSink("c3", 3)
 	t2 := t1
 	if pc.conns == 2 {
@@ -606,9 +594,7 @@ func runPair(pc pairCase) (string, string) {
 		}
 		time.Sleep(100 * time.Microsecond)
 	}
-	mark("g2wait")
 	orc2.Shutdown()
-	mark("g2down")
 	if l := logCap.FirstBugLine(); l != "" {
 		return "bug-log:gen2", l
 	}
@@ -693,74 +679,95 @@ func describeDirs(dirs []queueDir) string {
 // ---------------------------------------------------------------------------------------------------------------------
 
 func enumerate(ctx *seq.Ctx) {
-	maxN := 2
-	if ctx.Thorough() {
-		maxN = 3
+	emit := func(n, ti, conns, i, j, outputs int) {
+		if !ctx.Mine() {
+			ctx.Skip()
+			return
+		}
+		tmpl := templates[ti]
+		pc := pairCase{n: n, tmpl: tmpl, conns: conns, a: tupleOf(n, i), b: tupleOf(n, j), outputs: outputs}
+		id := fmt.Sprintf("k%d/t%d/c%d/o%d/%d-%d", n, ti, conns, outputs, i, j)
+		ctx.Case(id, true, fmt.Sprintf("keys=%d tag=%q conns=%d outputs=%d first=%s second=%s", n, tmpl.text(n), conns, outputs, q(pc.a), q(pc.b)),
+			func() (string, string) { return runPair(pc) })
 	}
-	for n := 1; n <= maxN; n++ {
+	// 1 and 2 key fields: every ordered pair x every template x {1,2} connections
+	for n := 1; n <= 2; n++ {
 		total := pow(len(sigma), n)
 		for ti, tmpl := range templates {
 			for conns := 1; conns <= 2; conns++ {
 				ctx.Group(fmt.Sprintf("keys%d/tag=%s/conns%d", n, tmpl.name, conns))
 				for i := 0; i < total; i++ {
-					if ctx.Stop() {
-						return
-					}
 					for j := 0; j < total; j++ {
-						if i == j {
-							continue
-						}
 						if ctx.Stop() {
 							return
 						}
-						if !ctx.Mine() {
-							ctx.Skip()
-							continue
+						if i != j {
+							emit(n, ti, conns, i, j, 1)
 						}
-						pc := pairCase{n: n, tmpl: tmpl, conns: conns, a: tupleOf(n, i), b: tupleOf(n, j), outputs: 1}
-						id := fmt.Sprintf("k%d/t%d/c%d/%d-%d", n, ti, conns, i, j)
-						ctx.Case(id, true, fmt.Sprintf("keys=%d tag=%q conns=%d first=%s second=%s", n, tmpl.text(n), conns, q(pc.a), q(pc.b)),
-							func() (string, string) { return runPair(pc) })
 					}
 				}
 			}
 		}
 	}
-	// two outputs (two buffer roots): gen-1 separation only, 2 key fields, one template
+	// two outputs (two buffer roots): separation only, 2 key fields, one template
 	ctx.Group("keys2/two-outputs")
-	total := pow(len(sigma), 2)
-	for i := 0; i < total; i++ {
-		if ctx.Stop() {
-			return
-		}
-		for j := 0; j < total; j++ {
-			if i == j {
-				continue
-			}
+	for i := 0; i < 100; i++ {
+		for j := 0; j < 100; j++ {
 			if ctx.Stop() {
 				return
 			}
-			if !ctx.Mine() {
-				ctx.Skip()
-				continue
+			if i != j {
+				emit(2, 1, 1, i, j, 2)
 			}
-			pc := pairCase{n: 2, tmpl: templates[1], conns: 1, a: tupleOf(2, i), b: tupleOf(2, j), outputs: 2}
-			id := fmt.Sprintf("k2/out2/%d-%d", i, j)
-			ctx.Case(id, true, fmt.Sprintf("keys=2 outputs=2 first=%s second=%s", q(pc.a), q(pc.b)), func() (string, string) { return runPair(pc) })
+		}
+	}
+	if !ctx.Thorough() {
+		return
+	}
+	// 3 key fields: every ordered pair on one connection and every unordered pair on two connections with the template
+	// t.$k1.$k2; the other templates and connection counts on the cyclic pairs (i, i+1), so that every tuple is tagged
+	// under every template both as first and as second arrival
+	total := pow(len(sigma), 3)
+	ctx.Group("keys3/tag=t.k1.k2/conns1/all-ordered-pairs")
+	for i := 0; i < total; i++ {
+		for j := 0; j < total; j++ {
+			if ctx.Stop() {
+				return
+			}
+			if i != j {
+				emit(3, 1, 1, i, j, 1)
+			}
+		}
+	}
+	ctx.Group("keys3/tag=t.k1.k2/conns2/all-unordered-pairs")
+	for i := 0; i < total; i++ {
+		for j := i + 1; j < total; j++ {
+			if ctx.Stop() {
+				return
+			}
+			emit(3, 1, 2, i, j, 1)
+		}
+	}
+	for ti, tmpl := range templates {
+		if ti == 1 {
+			continue // t.$k1.$k2 is covered by the two complete groups above
+		}
+		for conns := 1; conns <= 2; conns++ {
+			ctx.Group(fmt.Sprintf("keys3/tag=%s/conns%d/cyclic-pairs", tmpl.name, conns))
+			for i := 0; i < total; i++ {
+				if ctx.Stop() {
+					return
+				}
+				emit(3, ti, conns, i, (i+1)%total, 1)
+			}
 		}
 	}
 }
 
 func main() {
-	if pf := os.Getenv("VERIF_CPUPROFILE"); pf != "" {
-		f, _ := os.Create(pf)
-		pprof.StartCPUProfile(f)
-		go func() { time.Sleep(8 * time.Second); pprof.StopCPUProfile(); f.Close(); os.Exit(0) }()
-	}
+	debug.SetGCPercent(400) // every pipeline allocates ~2 MB of buffers; collect less often
 	logger.SetOutput(logCap)
 	logger.SetLogLevel(logger.ErrorLevel)
-	_ = io.Discard
-	_ = utf8.RuneError
 	// the serializer allocates 2*InputLogMaxRecordBytes per pipeline; the records here are tiny
 	defs.InputLogMaxMessageBytes = 16 * 1024
 	defs.InputLogMaxRecordBytes = defs.InputLogMaxMessageBytes + 256
@@ -769,7 +776,7 @@ func main() {
 	seq.Main(&seq.Config{
 		Property: "C06",
 		Level:    "exploration",
-		Rule: "every ORDERED pair of distinct key tuples over {\"\",a,b,ab,\",\",\"a,\",.,/,NUL,é} with 1 and 2 key fields (quick) and 3 (thorough) x 4 tag templates x {1,2} connections: a fresh real obykeyset orchestrator " +
+		Rule: "every ORDERED pair of distinct key tuples over {\"\",a,b,ab,\",\",\"a,\",.,/,NUL,é} with 1 and 2 key fields x 4 tag templates x {1,2} connections (both tiers); thorough adds 3 key fields: all 999000 ordered pairs on one connection and all 499500 unordered pairs on two connections under template t.$k1.$k2, and the 1000 cyclic pairs (i,i+1) under every template x {1,2} connections. Per case a fresh real obykeyset orchestrator " +
 			"(real pipeline starter, hybrid buffer on a scratch root, fluentd serializer/chunk maker, non-confirming consumer override) gets one record of each tuple, is shut down, the queue directories are decoded, " +
 			"a second orchestrator is started on the same root by Config.StartOrchestrator and gets one more record of each tuple; plus all ordered pairs with 2 key fields on a two-output configuration (separation only). " +
 			"Oracle: different pipelines/chunks/queue dirs, chunk tag = reference expansion for the record's own tuple, serialized key fields unchanged, queued chunk re-attached at startup to the pipeline that also receives the new record of its tuple and that carries its key_* labels. " +
@@ -778,7 +785,7 @@ func main() {
 			"key values are put into the record fields directly (any byte string the parser could extract); invalid UTF-8 values belong to C07",
 			"${k1[:1]} may count bytes or characters (undocumented): both expansions are accepted",
 			"with one key field the templates mentioning $k2 are used without the k2 part (a tag may only reference key fields)",
-			"defs.InputLogMaxMessageBytes is scaled to 16 KiB (serializer buffer size only); defs.IntermediateFlushInterval is 1 s in generation 1 (chunks cut at shutdown) and 1 ms in generation 2",
+			"defs.InputLogMaxMessageBytes is scaled to 16 KiB (serializer buffer size only) and defs.BufferMaxNumChunksInQueue to 256 (channel capacity only); defs.IntermediateFlushInterval is 1 s in generation 1 (chunks cut at shutdown) and 1 ms in generation 2",
 			"'re-attached at startup' is observed as: the consumer that delivers the queued chunk was created inside StartOrchestrator, not later when a record of the tuple arrived (documented intent in obykeyset/config.go)",
 		},
 		Enumerate:        enumerate,
